@@ -6,7 +6,8 @@ source table is untouched by the derivation (length, column list, cell values,
 scalars), and column expressions evaluate element-wise.
 
 stdin : {"cases": [{"data": [[key, kind, value]..], "col_names": [..]|null, "index": str, "ops": [op..]}]}
-        kind: "float"|"int"|"str"|"obj" (arrays), "scalar"
+        kind: "float"|"int"|"str"|"obj" (1-d arrays), "vec2"|"vec3"|"mat" (one vector / 2x2 matrix per
+              row: arrays of shape (n,2), (n,3), (n,2,2); values = one flat list per row), "scalar"
         op : ["rows", sel] | ["cols", [names], "str"|"list"] | ["addself"] | ["addrows", sel] | ["mul", k]
            | ["copy"] | ["t"] | ["concat", [sel..]] | ["set", key, ["arr", kind, vals] | ["scalar", v]]
            | ["expr", text, "item"|"cols"] | ["del", key]
@@ -37,6 +38,9 @@ class Obj:
         return hash(self.tag)
 
 
+MULTI = {"vec2": (2,), "vec3": (3,), "mat": (2, 2)}
+
+
 def mk_array(kind, vals):
     if kind == "float":
         return np.array([float.fromhex(v) for v in vals], dtype=np.float64)
@@ -44,6 +48,8 @@ def mk_array(kind, vals):
         return np.array(vals, dtype=np.int64)
     if kind == "str":
         return np.array(vals, dtype=object) if not vals else np.array(vals)
+    if kind in MULTI:
+        return np.array(vals, dtype=np.float64).reshape((len(vals),) + MULTI[kind])
     if kind == "obj":
         a = np.empty(len(vals), dtype=object)
         for i, v in enumerate(vals):
@@ -102,7 +108,8 @@ def shape(t):
     cols = []
     for c in t._col_names:
         v = t._data.get(c) if isinstance(t._data, dict) else None
-        cols.append([c, len(v) if isinstance(v, np.ndarray) and v.ndim == 1 else -1])
+        # the length of a column is that of its first axis (a column may hold one array per row)
+        cols.append([c, len(v) if isinstance(v, np.ndarray) and v.ndim >= 1 else -1])
     return {"cols": cols, "scalars": sorted(str(k) for k in t._data if k not in t._col_names), "index": t._index}
 
 
@@ -118,8 +125,8 @@ def rect_failures(t):
             bad.append(f"listed column {c!r} is not present")
             continue
         v = t._data[c]
-        if not isinstance(v, np.ndarray) or v.ndim != 1:
-            bad.append(f"listed column {c!r} is not a one-dimensional array")
+        if not isinstance(v, np.ndarray) or v.ndim < 1:
+            bad.append(f"listed column {c!r} is not an array with one entry per row")
         elif len(v) != n:
             bad.append(f"column {c!r} has length {len(v)} but len(table) is {n}")
     if t._index not in t._col_names:
@@ -156,7 +163,8 @@ def elementwise_failures(src, text, got):
     for i in range(n):
         try:
             env = {c: pyval(src._data[c][i]) for c in src._col_names
-                   if isinstance(src._data.get(c), np.ndarray) and src._data[c].dtype.kind in "fi" and len(src._data[c]) == n}
+                   if isinstance(src._data.get(c), np.ndarray) and src._data[c].ndim == 1
+                   and src._data[c].dtype.kind in "fi" and len(src._data[c]) == n}
             want = eval(text, {"__builtins__": {}}, env)
         except Exception:  # noqa
             return []      # not an arithmetic expression over the numeric columns of this table: no verdict
@@ -245,6 +253,28 @@ def run_case(case):
             if kind in ("addself", "addrows", "mul", "copy"):
                 if sorted(new._col_names) != sorted(cur._col_names):
                     f.append(f"{kind}: column list changed")
+            if kind != "t":
+                # the rows keep their content: per-row shape of every column, and for
+                # + * _copy the cells themselves, in order
+                n0 = before["len"]
+                for c in new._col_names:
+                    a, b = cur._data.get(c), new._data.get(c)
+                    if c not in cur._col_names or not isinstance(a, np.ndarray) or not isinstance(b, np.ndarray):
+                        continue
+                    if a.shape[1:] != b.shape[1:]:
+                        f.append(f"{kind}: rows of column {c!r} have shape {b.shape[1:]}, in the source {a.shape[1:]}")
+                        continue
+                    want = None
+                    if kind == "copy":
+                        want = a
+                    elif kind == "addself":
+                        want = np.concatenate([a, a])
+                    elif kind == "mul" and int(op[1]) > 0:
+                        want = np.concatenate([a] * int(op[1]))
+                    elif kind == "addrows":
+                        want, b = a, b[:n0]
+                    if want is not None and not same_value(b, want):
+                        f.append(f"{kind}: cells of column {c!r} are not those of the source rows")
             if kind == "copy" and len(new) != len(cur):
                 f.append("copy has another length")
             if kind == "mul" and len(new) != len(cur) * int(op[1]):
